@@ -49,6 +49,13 @@ def pool_docs():
     add('xsd-invalid', '<r xmlns:xsi="http://www.w3.org/2001/XMLSchema-instance" xsi:noNamespaceSchemaLocation="s1.xsd"><a>1</a><a>01</a><a>x</a><b/></r>', ns=1, schema=1)
     add('xsd-ns-valid', '<r xmlns="urn:t2" xmlns:xsi="http://www.w3.org/2001/XMLSchema-instance" xsi:schemaLocation="urn:t2 s2.xsd"><a> t </a></r>', ns=1, schema=1)
     add('xsd-ns-invalid', '<r xmlns="urn:t2" xmlns:xsi="http://www.w3.org/2001/XMLSchema-instance" xsi:schemaLocation="urn:t2 s2.xsd" k="maybe"><a/><a/><a/><a/></r>', ns=1, schema=1)
+    # parses that end in an exception raised inside the scanner/reader (not an ordinary well-formedness error)
+    add('bad-utf8', b'<r><a>ok</a>\xff\xfe</r>')
+    add('bad-utf8-in-name', b'<r><a\xc0\x80/></r>')
+    add('unsupported-encoding', '<?xml version="1.0" encoding="x-no-such-charset"?><r/>')
+    add('wrong-encoding-decl', '<?xml version="1.0" encoding="UTF-16"?><r>t</r>')
+    add('ucs4-truncated', b'\x00\x00\x00<\x00\x00\x00?\x00\x00')
+    add('malformed-two-errors', '<r><a></b><c></d></r>')
     add('deep', '<r>' + '<a>' * 40 + 'x' + '</a>' * 40 + '</r>')
     add('many-attrs', '<r ' + ' '.join('a%d="%d"' % (i, i) for i in range(130)) + '/>')
     return D
